@@ -44,6 +44,8 @@ type vfPairCfg struct {
 	HorizonS                int
 	StrAddr                 bool // use non-UDP address types (string comparison paths)
 	Wire                    bool // decode every datagram with the independent decoder (C09) and check sizes (C10)
+	GapAfter                int  // the client writer idles GapMs after this many writes (0 = never)
+	GapMs                   int
 }
 
 func vfBlockCrypt(name string) (BlockCrypt, wire.Config) {
@@ -120,9 +122,13 @@ type vfPair struct {
 	wireC2S  vfWireTrack
 	wireS2C  vfWireTrack
 	maxDgram int
-	mtuNow   int  // C10: MTU currently in force at the client (0 = configured)
-	shrunk   bool // C10: the MTU was reduced while data was queued or in flight
-	exempt   int  // C10: client datagrams still in the transmit pipeline when SetMtu was called
+	mtuNow   int             // C10: MTU currently in force at the client (0 = configured)
+	shrunk   bool            // C10: the MTU was reduced while data was queued or in flight
+	exempt   int             // C10: client datagrams still in the transmit pipeline when SetMtu was called
+	altSizes []int           // C10: write sequence decided at run time
+	cIdx     int             // C10: client datagrams seen at the socket so far
+	shrinkAt int             // C10: value of cIdx when the MTU was last reduced (-1 = never)
+	openGrp  map[uint32]bool // C10: FEC groups that held (or were about to receive) packets produced under the old MTU when it shrank
 }
 
 func (p *vfPair) owned(sig string) bool {
@@ -168,7 +174,7 @@ func (c vfPairCfg) fatesOf() []int {
 func vfPairSetup(cfg vfPairCfg) *vfPair {
 	vfResetGlobals()
 	vrt.SetPoolMode(cfg.Pool)
-	p := &vfPair{cfg: cfg, net: vfNewNet()}
+	p := &vfPair{cfg: cfg, net: vfNewNet(), shrinkAt: -1}
 	if cfg.Delay > 0 {
 		p.net.Delay = cfg.Delay
 	}
@@ -231,6 +237,16 @@ func vfPairSetup(cfg vfPairCfg) *vfPair {
 					sig = "C10:datagram-exceeds-mtu:after-mtu-shrink-with-data-queued"
 				}
 			}
+			if from == p.csock {
+				p.cIdx++
+				if f, err := wire.Decode(p.wcfg[0], data); err == nil && f.HasFEC && f.Type == wire.TypeParity {
+					g := f.Seqid / uint32(p.wcfg[0].DataShards+p.wcfg[0].ParityShards)
+					if p.openGrp[g] {
+						// parity must be as long as the longest data packet of its group; this group was open when the MTU shrank
+						sig = "C10:datagram-exceeds-mtu:fec-parity-of-a-group-that-was-open-when-the-mtu-shrank"
+					}
+				}
+			}
 			if from == p.csock && p.exempt > 0 {
 				p.exempt--
 			} else if len(data) > limit {
@@ -279,7 +295,10 @@ func (p *vfPair) tune(s *UDPSession) {
 // writer writes the given sizes and returns the accepted bytes.
 func (p *vfPair) writer(s *UDPSession, end int, sizes []int, accepted *[]byte) {
 	off := 0
-	for _, n := range sizes {
+	for i, n := range sizes {
+		if end == 0 && p.cfg.GapAfter > 0 && i == p.cfg.GapAfter {
+			vrt.Sleep(time.Duration(p.cfg.GapMs) * time.Millisecond)
+		}
 		b := vfPayload(end, n, off)
 		off += n
 		w, err := s.Write(b)
@@ -309,6 +328,32 @@ func (p *vfPair) writer2(s *UDPSession, end int, sizes []int, from int, accepted
 			*accepted = append(*accepted, b...)
 		}
 		off += n
+	}
+}
+
+// noteShrink records which FEC groups contain packets produced under the old MTU (white-box read of the
+// client's encoder position and transmit pipeline at the moment SetMtu returns).
+func (p *vfPair) noteShrink() {
+	p.shrinkAt = p.cIdx
+	enc := p.client.fecEncoder
+	if enc == nil {
+		return
+	}
+	if p.openGrp == nil {
+		p.openGrp = map[uint32]bool{}
+	}
+	size, d := uint32(enc.shardSize), uint32(enc.dataShards)
+	pos := enc.next
+	if enc.shardCount > 0 {
+		p.openGrp[pos/size] = true
+	}
+	for q := p.client.chPostProcessing.Len(); q > 0; q-- { // (a dequeued packet is encoded before the next scheduling point)
+		p.openGrp[pos/size] = true
+		if pos%size == d-1 {
+			pos = (pos + size - d + 1) % enc.paws
+		} else {
+			pos++
+		}
 	}
 }
 
